@@ -283,6 +283,8 @@ func (w *worker) runSel(c *selCase, raw []byte) {
 					w.viol("C03", "values-and-error", text, before, r.String(), kinds, raw)
 				case r.Err != nil && strings.HasPrefix(errClass(r.Err), "other"):
 					w.viol("C03", "undocumented-error-type", text, before, r.String(), kinds, raw)
+				case r.Err == nil && c.Det && !c.Res.Ok:
+					w.viol("C03", "no-match-reported-as-success", text, before, fmt.Sprintf("the path selects nothing on this document, yet the call returned %s", r), kinds, raw)
 				case r.Err != nil && errClass(r.Err) == "ff":
 					failed := false
 					for _, cl := range log.calls {
@@ -304,7 +306,7 @@ func (w *worker) runSel(c *selCase, raw []byte) {
 				if after != before {
 					w.viol("C04", "document-modified", text, before, "after the call: "+after, kinds, raw)
 				}
-			} else if after != before {
+			} else if after != before && !P["C13"] {
 				// the document was damaged: later oracles would blame the wrong property
 				w.count("skipped:doc-modified", 1)
 				return
@@ -577,8 +579,12 @@ func (w *worker) checkAccessors(c *selCase, text string, m Mode, kinds string, r
 		doc := c.Doc.ToGo(m)
 		before := snap(doc)
 		r := safeCall(pr.F, doc)
-		if r.Panic != nil || r.Err != nil || len(r.Vals) != len(c.Res.Vals) {
+		if r.Panic != nil || r.Err != nil {
 			return // C12/C01's business
+		}
+		if len(r.Vals) != len(c.Res.Vals) {
+			w.viol("C13", "accessors-do-not-correspond-to-the-selected-locations", text, before, fmt.Sprintf("%d accessors returned, the path selects %d locations: accessor i cannot address location i", len(r.Vals), len(c.Res.Vals)), kinds, raw)
+			return
 		}
 		a, ok := r.Vals[i].(jsonpath.Accessor)
 		if !ok {
